@@ -205,3 +205,22 @@ Fixpoint mplex_code_from {A} (dflt : A) (i : nat) (spf1 spf2 : nat) (cnt : list 
 Definition mplex_spec {A} spf1 spf2 cnt val (old new : list A) := mplex_spec_from 0 spf1 spf2 cnt val old new.
 Definition mplex_code {A} (dflt : A) spf1 spf2 cnt val (old new : list A) :=
   mplex_code_from dflt 0 spf1 spf2 cnt val old new (length old).
+
+(* ---------------------------------------------------------------- first-order LINCOM / POLYNOM, RECIP, LINTERP *)
+(* the inverse kernels of putdata.c:106-280, 353-470 over the abstract field
+   (exact rationals; rounding of doubles is not this property's subject) *)
+From Coq Require Import QArith.
+Local Open Scope Q_scope.
+
+(* _GD_DoLincomOut / _GD_DoPolynomOut (first order): scale with 1/m, offset -b/m *)
+Definition lincom_read (m b x : Q) : Q := x * m + b.
+Definition lincom_out (m b y : Q) : Q := y * (1 / m) + (- b / m).
+
+(* _GD_DoRecipOut: x = a / y *)
+Definition recip_read (a x : Q) : Q := a / x.
+Definition recip_out (a y : Q) : Q := a / y.
+
+(* LINTERP: one segment of the table, and the same segment of the reversed table *)
+Definition seg_interp (x0 y0 x1 y1 x : Q) : Q := y0 + (y1 - y0) / (x1 - x0) * (x - x0).
+Definition reverse_table (lut : list (Q * Q)) : list (Q * Q) := map (fun p => (snd p, fst p)) lut.
+Local Close Scope Q_scope.
